@@ -243,12 +243,19 @@ def run(repo, rep):
         probs.append('(0000,0000) is not excluded from the sum')
     else:
         probs.append('%d leading elements are skipped' % skip)
-    tgt_ok = any(isinstance(n, ast.Assign) and isinstance(n.targets[0], ast.Attribute) and n.targets[0].attr == 'value'
-                 and isinstance(n.targets[0].value, ast.Subscript)
-                 and repo.try_fold(n.targets[0].value.slice, dm, base) in ((0, 0), 0)
-                 and norm(n.value).startswith('sum(') for n in ast.walk(sl.node))
-    if not tgt_ok:
-        probs.append('the sum is not stored into element (0000,0000)')
+    # on every path the sum must be stored into element (0000,0000) (aliases of the element are followed)
+    c2 = SymClient(repo, sl, event_of=lambda *a: None, hierarchy=hier, store_event=lambda t: t.endswith('.value'))
+    fin2 = c2.final_states(c2.run(empty_state()))
+    for s2, how2 in fin2:
+        if how2.startswith('raise'):
+            continue
+        st_ = [e for e in s2.trail if e.kind == 'store' and e.callee in ('self.command_set[0, 0].value', 'self.command_set[0].value',
+                                                                        'self.command_set[(0, 0)].value')]
+        if not st_:
+            probs.append('a path through set_length leaves (0000,0000) as it was [%s]: a length computed for an earlier send '
+                         'goes out again after the message was modified' % (' '.join(s2.conds) or 'no store found'))
+        elif not st_[-1].args[0].startswith('sum('):
+            probs.append('(0000,0000) is set to %s, not to the sum of the element lengths' % st_[-1].args[0])
     if 'encode_element' not in norm(sl.node):
         probs.append('element lengths are not measured with dsutils.encode_element')
     rep.check(not probs, 'C08.M2', 'dimsemessages:DIMSEMessage.set_length:exclusion', sl.loc(),
